@@ -136,3 +136,77 @@ Example failing_satisfiable : exists m, from_roots (loads_of [(0,[1]);(1,[])]) [
 Proof.
   exists 1. split; [|reflexivity]. exists 0. split; [left; reflexivity|]. right. apply gp_one. cbn. auto.
 Qed.
+
+(** ** From registry keys to module files.
+    The theorems above count executions per registry key (the model's [label]).  The registry is keyed by the label
+    that module.go's loadModule computes from the text of a load statement ([module_key reqs cur raw]: the module
+    [cur] executes [load(raw, ...)], [reqs] = the requirement aliases of its project); the file that is then
+    executed is the one fetchModule derives from that label ([module_file]: project, package components, file
+    name).  [wf_pkg p]: p is an absolute package and a fixed point of label.Clean; the package files start with
+    such packages (loadPackage joins directory names onto "//") and every key keeps the invariant. *)
+
+From Dawn Require Loader.KeyProofs.
+
+(* once per registry key is once per file whenever equal files have equal keys ... *)
+Theorem file_executed_at_most_once :
+  forall (F : Type) (file_of : Loader.Model.label -> F), (forall a b, file_of a = file_of b -> a = b) ->
+  forall loads bad roots s, reachable loads bad roots s -> NoDup (map file_of (execs s)).
+Proof. exact Loader.KeyProofs.t_file_executed_at_most_once. Qed.
+Print Assumptions file_executed_at_most_once.
+
+From Dawn Require Import Label.Model Loader.KeyModel Loader.KeyProofs.
+
+(* ... and they have: two load statements -- of any two modules, in any spelling (explicit kind, relative package,
+   redundant slashes, omitted name, requirement alias or project path) -- that stand for the same file are
+   registered under the same label, hence the same registry key label.String() *)
+Theorem one_key_per_file :
+  forall reqs1 reqs2 cur1 cur2 raw1 raw2 k1 k2,
+    wf_pkg (l_package cur1) -> wf_pkg (l_package cur2) ->
+    module_key reqs1 cur1 raw1 = KKey k1 -> module_key reqs2 cur2 raw2 = KKey k2 ->
+    module_file k1 = module_file k2 ->
+    k1 = k2 /\ to_string k1 = to_string k2.
+Proof. exact t_one_key_per_file. Qed.
+Print Assumptions one_key_per_file.
+
+(* the invariant: a load statement of a module with a well-formed package never takes the nil-label path, and
+   what it registers is a module label with a well-formed package and a file name, for which fetchModule's
+   slice expression is in range *)
+Theorem registry_keys_stay_well_formed :
+  forall reqs cur raw, wf_pkg (l_package cur) ->
+    module_key reqs cur raw <> KPanic /\
+    forall k, module_key reqs cur raw = KKey k ->
+      wf_pkg (l_package k) /\ l_kind k = module_kind /\ l_name k <> [] /\ module_file k <> None.
+Proof.
+  exact (fun reqs cur raw W => conj (key_no_panic reqs cur raw W) (fun k => t_key_keeps_wf reqs cur raw k W)).
+Qed.
+Print Assumptions registry_keys_stay_well_formed.
+
+Example root_package_well_formed : wf_pkg [47; 47]%N.
+Proof. exact root_pkg_wf. Qed.
+
+Example joined_package_well_formed : forall a b p, wf_pkg a -> join2 a b = Some p -> wf_pkg p.
+Proof. exact join_pkg_wf. Qed.
+
+Local Open Scope N_scope.
+Definition ex_build (pkg : list N) : Label.Model.label :=
+  mkLabel module_kind [] pkg build_name.
+Definition ex_helper_key : key_res :=    (* module://lib:helper.dawn *)
+  KKey (mkLabel module_kind [] [47; 47; 108; 105; 98] [104; 101; 108; 112; 101; 114; 46; 100; 97; 119; 110]).
+
+(* //lib:helper.dawn, source://lib:helper.dawn and lib/:helper.dawn from two packages, :helper.dawn from //lib *)
+Example spellings_of_one_file :
+  module_key [] (ex_build [47; 47; 112]) [47; 47; 108; 105; 98; 58; 104; 101; 108; 112; 101; 114; 46; 100; 97; 119; 110] = ex_helper_key /\
+  module_key [] (ex_build [47; 47; 112]) [115; 111; 117; 114; 99; 101; 58; 47; 47; 108; 105; 98; 58; 104; 101; 108; 112; 101; 114; 46; 100; 97; 119; 110] = ex_helper_key /\
+  module_key [] (ex_build [47; 47]) [108; 105; 98; 47; 58; 104; 101; 108; 112; 101; 114; 46; 100; 97; 119; 110] = ex_helper_key /\
+  module_key [] (ex_build [47; 47; 108; 105; 98]) [58; 104; 101; 108; 112; 101; 114; 46; 100; 97; 119; 110] = ex_helper_key.
+Proof. vm_compute. repeat split. Qed.
+
+(* a package named without a file is its BUILD.dawn; an alias is replaced by the project it stands for *)
+Example omitted_name_and_alias :
+  module_key [] (ex_build [47; 47; 112]) [47; 47; 108; 105; 98] = KKey (ex_build [47; 47; 108; 105; 98]) /\
+  module_key [([108; 105; 98], [101; 120; 97; 109; 112; 108; 101; 46; 99; 111; 109; 47; 108; 105; 98])] (ex_build [47; 47])
+             [108; 105; 98; 47; 47; 58; 104; 101; 108; 112; 101; 114; 46; 100; 97; 119; 110] =
+  module_key [] (ex_build [47; 47])
+             [101; 120; 97; 109; 112; 108; 101; 46; 99; 111; 109; 47; 108; 105; 98; 47; 47; 58; 104; 101; 108; 112; 101; 114; 46; 100; 97; 119; 110] /\
+  module_key [] (ex_build [47; 47]) [108; 105; 98; 47; 47; 58; 104; 101; 108; 112; 101; 114; 46; 100; 97; 119; 110] = KErr.
+Proof. vm_compute. repeat split. Qed.
